@@ -11,9 +11,12 @@ from pathlib import Path
 
 ROOT = Path(__file__).resolve().parent.parent
 REPO = Path(os.environ.get("VP_REPO", "/repo"))
-EVIDENCE = ROOT / "evidence"
+# VP_SCRATCH redirects evidence and work files (used only when a seeded change is tried against a scratch worktree via VP_REPO,
+# so that the committed evidence of /repo itself is not overwritten)
+_SCRATCH = os.environ.get("VP_SCRATCH")
+EVIDENCE = (Path(_SCRATCH) if _SCRATCH else ROOT) / "evidence"
 REPLAYS = EVIDENCE / "replays"
-WORK = ROOT / ".work"
+WORK = (Path(_SCRATCH) if _SCRATCH else ROOT) / ".work"
 FINDINGS_FILE = Path(os.environ.get("VP_FINDINGS", str(ROOT / "known_findings.json")))
 
 EXIT_OK = 0
@@ -152,7 +155,7 @@ class Run:
         ev["coverage"]["known_findings_confirmed"] = self.known_printed
         ev["coverage"]["inconclusive_items"] = self.inconclusive[:50]
         ev["coverage"]["harness_errors"] = self.harness_errors[:50]
-        EVIDENCE.mkdir(exist_ok=True)
+        EVIDENCE.mkdir(parents=True, exist_ok=True)
         try:
             import jsonschema
 
